@@ -111,6 +111,19 @@ def run_sweep(tier, select=None, N=None):
     return out
 
 
+ITEM_INVS = ["TypeOK", "Inv_NoFailedReported", "Inv_ClosedAtEnd", "Inv_Errors", "Inv_Serial"]
+
+
+def item_jobs(tier, expect_mutant):
+    """the RwLock<Option<Sender>> protocol of the item futures with every await as a suspension point (spec/ItemFuture.tla):
+    the code's protocol passes and terminates; closing with try_write (seeded defects C07_c / C08_c) must fail"""
+    m = 4 if tier == "thorough" else 3
+    return [job("ItemFuture", f"itemfuture_m{m}", dict(M=m, CloseMode="write_await"), ITEM_INVS, properties=["Termination"],
+                spec="LiveSpec", workers=2, heap="2g"),
+            job("ItemFuture", "itemfuture_mut_try_write", dict(M=3, CloseMode="try_write"), [expect_mutant], workers=2, heap="2g",
+                expect=expect_mutant)]
+
+
 def run_live(tier):
     n = 3 if tier == "thorough" else 2
     out = []
@@ -196,7 +209,7 @@ def builder_sweep(tier):
 
 def calls_sweep(tier):
     c = dict(N=3, MaxCalls=4 if tier == "thorough" else 3, MaxBatch=2, AddInsteadOfUpdate=False)
-    return [job("BuilderCalls", "calls", c, ["Inv_Dag", "Inv_C16_Edge", "Inv_C16_Batch"], workers=6, heap="6g")]
+    return [job("BuilderCalls", "calls", c, ["Inv_Dag", "Inv_C16_Edge", "Inv_C16_Batch", "Inv_AddFnFrame"], workers=6, heap="6g")]
 
 
 def seq_sweep(tier):
@@ -321,7 +334,7 @@ def plan_for(prop, tier, seed):
         P["nontrivial_keys"] = ["handout"]
         P["rule"] = "non-trivial = distinct traces with at least one hand-out (at-most-once checked at each; exactly-once at return / stream end of clean runs)"
     elif prop == "C04":
-        P["design"] = run_sweep(tier) + run_live(tier)
+        P["design"] = run_sweep(tier) + run_live(tier) + item_jobs(tier, "Inv_ClosedAtEnd")
         P["scenarios"] = scenario_jobs(tier)
         P["families"] = run_fams + [fam("wide", shards=3), fam("budget", shards=2, count=2000 if T else 300),
                                     fam("budget_exh", shards=8 if T else 3, sample=1 if T else 8)]
@@ -342,7 +355,7 @@ def plan_for(prop, tier, seed):
         P["nontrivial_keys"] = ["idle_eager_nontrivial", "build_data_edge"]
         P["rule"] = "non-trivial = distinct traces with an idle point of an unlimited, unsignalled, failure-free concurrent call with unstarted functions, or a build with data edges"
     elif prop == "C07":
-        P["design"] = run_sweep(tier, lambda k: k["api"].startswith("try"))
+        P["design"] = run_sweep(tier, lambda k: k["api"].startswith("try")) + item_jobs(tier, "Inv_NoFailedReported")
         P["scenarios"] = scenario_jobs(tier, lambda k: k["api"].startswith("try"))
         P["families"] = [fam("runs_exh", shards=12 if T else 6, sample=8 if T else 8, focus="try"), fam("runs_rand", shards=4, focus="try"),
                          fam("wide", shards=3, focus="try"), fam("budget", shards=2, count=2000 if T else 300, focus="try"),
@@ -356,7 +369,8 @@ def plan_for(prop, tier, seed):
                           # the known finding, reproduced at design level: the bound on STARTS fails for the for_each bodies
                           # when the signal arrives in the middle of a poll
                           job("Run", "finding_c08_starts", run_consts(3, "for_each", strategy="finish"), ["Inv_C08", "Inv_C08_Starts"],
-                              view="View", workers=2, heap="3g", expect="Inv_C08_Starts")])
+                              view="View", workers=2, heap="3g", expect="Inv_C08_Starts")]
+                       + item_jobs(tier, "Inv_ClosedAtEnd"))
         P["scenarios"] = scenario_jobs(tier, lambda k: k.get("strategy", "none") != "none")
         P["families"] = [fam("runs_exh", shards=12 if T else 6, sample=8 if T else 12, focus="int"), fam("runs_rand", shards=4, focus="int"),
                          fam("stream_exh", shards=6 if T else 3, sample=2 if T else 4, focus="int"), fam("stream_rand", shards=2, focus="int"),
